@@ -30,7 +30,8 @@ RULE = ("job = seed -> TLS 1.3 (all five suites, +- client certificate for "
         "distinct = digest(scenario, rounds, choices); non-trivial = >= 1 "
         "control operation was processed by the peer"
         ' The control traffic may run on a resumed connection (ID / ticket / PSK) and after a HelloRetryRequest handshake; step invariant: the server session names a new client chain only after the post-handshake Finished has been accepted (small server record limits spread the flight over several records).'
-        ' Heartbeats sized on / next to the record boundary; post-handshake auth with a client that declines (empty Certificate), with a request that does not offer certificate compression, and replay of an already answered request.')
+        ' Heartbeats sized on / next to the record boundary; post-handshake auth with a client that declines (empty Certificate), with a request that does not offer certificate compression, and replay of an already answered request.'
+        ' Generator protocol oracle: a read that processes control messages (post-handshake auth, KeyUpdate, tickets) yields 0/1 and then exactly one result, the data.  Illegal control also: KeyUpdate with request_update outside {0,1} sent through the API (keys in step).')
 LEVEL_TEXT = ("Seeded exploration of bounded control/data histories with "
               "random interleaving and delivery; the key-schedule oracle is "
               "an independent HKDF written on stdlib hmac.")
@@ -45,7 +46,8 @@ PROBES = ["key_update", "key_update_requested", "simultaneous_keyupdate",
           "illegal_heartbeat", "illegal_ccs", "illegal_certificate",
           "illegal_finished", "ku_not_aligned", "nst", "secrets_checked",
           "pha_order_checked", "resumed", "hrr",
-          "heartbeat_record_boundary", "pha_declined", "pha_replay"]
+          "heartbeat_record_boundary", "pha_declined", "pha_replay",
+          "ku_bad_value"]
 COMPONENTS_REAL = ["tlslite post-handshake paths: KeyUpdate, PHA, "
                    "heartbeat, NewSessionTicket processing in readAsync"]
 COMPONENTS_STUB = ["socket", "os.urandom", "clock"]
@@ -318,6 +320,8 @@ def run(job, streams=None):
             return lambda: conn.readAsync(op[2], op[3])
         if op[1] == "ku":
             return lambda: conn.send_keyupdate_request(1 if op[2] else 0)
+        if op[1] == "ku_val":
+            return lambda: conn.send_keyupdate_request(op[2])
         if op[1] == "hb":
             return lambda: conn.write_heartbeat(
                 bytearray(bytes.fromhex(op[2])), op[3])
@@ -349,6 +353,19 @@ def run(job, streams=None):
         from sim.trace import where
         v("exception", "%s|%s|%s" % (d[0], type(e).__name__, where(e)),
           "%s op %r raised %r" % (w, d, e))
+    # generator protocol: control messages handled inside a read must not
+    # surface through it - a call yields 0 / 1 while blocked and at most one
+    # result, which for a read is the data (a caller that follows the
+    # documented protocol stops at the first result)
+    for w in "cs":
+        for o in eps[w].history[1:]:
+            if o.nvalues > 1 or (o.kind == "ok" and o.desc[0] == "read" and
+                                 o.nvalues and not isinstance(
+                                     o.value, (bytes, bytearray))):
+                v("generator_protocol", "%s|%d_results" % (o.desc[0],
+                                                           o.nvalues),
+                  "%s op %r yielded %d result values (last: %s)" %
+                  (w, o.desc, o.nvalues, type(o.value).__name__))
     if status != "idle" and not bad_ops:
         v("liveness", status, "history did not finish: %s pending=%r" %
           (status, [(w, eps[w].cur.desc) for w in "cs" if eps[w].cur]))
@@ -423,7 +440,7 @@ def run(job, streams=None):
         if tls13 and conns["c"].tickets:
             probes["nst"] = 1
         # ---- optional illegal control message
-        ill = ch.draw(8, "i.kind")
+        ill = ch.draw(10, "i.kind")
         if ill in (6, 7) and pha_count and seen_cr and not viol:
             # the client answers an already answered CertificateRequest a
             # second time (after a decline: now with a real certificate)
@@ -449,7 +466,7 @@ def run(job, streams=None):
                   type(last.exc).__name__, "second answer to a "
                   "CertificateRequest surfaced as %r" % (last.exc,))
             processed = True
-        if ill in (1, 2, 3, 4, 5):
+        if ill in (1, 2, 3, 4, 5, 8, 9):
             w = "cs"[ch.draw(2, "i.who")]
             peer = "s" if w == "c" else "c"
             name = None
@@ -477,6 +494,14 @@ def run(job, streams=None):
                 ops = [[w, "rawrec", M.Message(22, ku + bytearray(
                     [24, 0, 0]))]]
                 name = "ku_not_aligned"
+            elif ill in (8, 9) and tls13:
+                # request_update outside {0, 1} (RFC 8446 4.6.3:
+                # illegal_parameter)
+                val = [2, 255, 3, 128][ch.draw(4, "i.kuval")]
+                # (sent through the API, which rotates the sender's keys:
+                # a receiver that follows would stay in step)
+                ops = [[w, "ku_val", val]]
+                name = "ku_bad_value"
             if name:
                 probes[name] = 1
                 ops += [[w, "write", wrote[w], 5], [peer, "read", None, 5]]
